@@ -62,15 +62,15 @@ type c04Env struct {
 	// Followers and the committed frontier are reported identical to the local store.
 	log []durableProposal
 
-	probes, fetches                            int
-	loads, syncs, replaces, storeFetches       int
-	lookups                                    int
-	localSubmits, replicaSubmits               int
-	folDurableAcks                             int
-	lastLocal                                  durableProposal
+	probes, fetches                      int
+	loads, syncs, replaces, storeFetches int
+	lookups                              int
+	localSubmits, replicaSubmits         int
+	folDurableAcks                       int
+	lastLocal                            durableProposal
 }
 
-func (e *c04Env) dispatches() int { return e.localSubmits + e.replicaSubmits }
+func (e *c04Env) dispatches() int  { return e.localSubmits + e.replicaSubmits }
 func (e *c04Env) storeWrites() int { return e.syncs + e.replaces }
 func (e *c04Env) portCalls() int {
 	return e.probes + e.fetches + e.loads + e.syncs + e.replaces + e.storeFetches + e.lookups + e.localSubmits + e.replicaSubmits
@@ -752,7 +752,7 @@ func Harness_C04_TwoStep() {
 	b.Voters, b.WriteQuorum = a.Voters, a.WriteQuorum
 	zzsym.Assume(c04Lex(b.ID, a.ID) > 0)
 	c04AssumeBarrierCommandFresh(b)
-	env.probeMode = 0 // the second recovery either has its probes refused or succeeds
+	env.probeMode = 0                                                                       // the second recovery either has its probes refused or succeeds
 	env.localPlan, env.folPlan = []int{c04LocalHonest}, []int{c04FolDurable, c04FolDurable} // a barrier round, if any, is durable
 	_, errB := l.Install(context.Background(), b)
 	env.localPlan, env.folPlan = nil, nil
